@@ -159,15 +159,15 @@ def replay(path, seed):
 EVAL_INV = "MTypeOK AgreesWithDen NoLockAcrossHandler NoPoison NoDeadlock StopAtFault"
 
 
-def mceval_cfg(name, family="shapes", depth=1, modes=("call", "bare", "mixed"), full_faults=True, emit=True, chain=2, switches=None, inv=None):
+def mceval_cfg(name, family="shapes", depth=1, modes=("call", "bare", "mixed"), full_faults=True, emit=True, chain=2, switches=None, inv=None, mutators=False):
     sw = dict(BareRefHoldsLock=False, BothBranches=False, ContinueAfterErr=False)
     sw.update(switches or {})
     path = os.path.join(tlc.WORK, "MCEval-%s.cfg" % name)
     os.makedirs(tlc.WORK, exist_ok=True)
     extra = " LeftToRight AtMostOnce" if family == "shapes" else ""
     with open(path, "w") as f:
-        f.write("SPECIFICATION Spec\nCONSTANTS Depth = %d\n LeafModes = {%s}\n FullFaults = %s\n Emit = %s\n Family = \"%s\"\n ChainLen = %d\n"
-                % (depth, ", ".join('"%s"' % m for m in modes), str(full_faults).upper(), str(emit).upper(), family, chain))
+        f.write("SPECIFICATION Spec\nCONSTANTS Depth = %d\n LeafModes = {%s}\n FullFaults = %s\n Emit = %s\n Family = \"%s\"\n ChainLen = %d\n Mutators = %s\n"
+                % (depth, ", ".join('"%s"' % m for m in modes), str(full_faults).upper(), str(emit).upper(), family, chain, str(mutators).upper()))
         for k, v in sw.items():
             f.write(" %s = %s\n" % (k, str(v).upper()))
         f.write("INVARIANT %s%s\n" % (inv or (EVAL_INV + extra), " EmitOnce" if emit else ""))
